@@ -312,4 +312,247 @@ theorem compileArms_ls_Ff : ∀ (fnOk : Bool) (self : String) (arms : List (Expr
     · exact ⟨(h2 x hx).1.mono (Nat.le_refl _) (Nat.le_trans h3 h5), (h2 x hx).2.mono (Nat.le_refl _) (Nat.le_trans h3 h5)⟩
 end
 
+/-! ## The fragment with `break` and `continue` (top-level code) -/
+
+mutual
+/-- Fx ls: top-level statements that may `break`/`continue` one of the enclosing loops (`ls`: their
+labels, innermost first): `begin`, `cond` (tests in Ff), `let`/`letseq` (initialisers in Ff), `newScope`,
+`for` (initialiser, test, increment in Ff; the body in Fx with the loop's label added) — and everything
+of Ff. -/
+def Fx (ls : List (Option String)) : Expr → Bool
+  | .break_ l => lblOk ls l
+  | .continue_ l => lblOk ls l
+  | .begin_ es => FxList ls es
+  | .cond arms d => FxArms ls arms && Fx ls d
+  | .let_ seq bs body =>
+    (seq || decide ((bs.map (·.1)).Nodup)) && !body.isEmpty && FfBinds true "" bs && FxList ls body
+  | .newScope es => !es.isEmpty && FxList ls es
+  | .for_ label init test incr body => Ff true "" init && Ff true "" test && Ff true "" incr && FxList (label :: ls) body
+  | .int v => Ff true "" (.int v)
+  | .bool v => Ff true "" (.bool v)
+  | .str v => Ff true "" (.str v)
+  | .nilLit => Ff true "" .nilLit
+  | .sym x => Ff true "" (.sym x)
+  | .arr es => Ff true "" (.arr es)
+  | .call f args => Ff true "" (.call f args)
+  | .def_ x e => Ff true "" (.def_ x e)
+  | .set_ x e => Ff true "" (.set_ x e)
+  | .and_ es => Ff true "" (.and_ es)
+  | .or_ es => Ff true "" (.or_ es)
+  | .fn ps rest body => Ff true "" (.fn ps rest body)
+  | .defn name ps rest body => Ff true "" (.defn name ps rest body)
+  | .assign _ _ => false
+  | .bad _ => false
+def FxList (ls : List (Option String)) : List Expr → Bool
+  | [] => true
+  | e :: es => Fx ls e && FxList ls es
+def FxArms (ls : List (Option String)) : List (Expr × Expr) → Bool
+  | [] => true
+  | (p, b) :: r => Ff true "" p && Fx ls b && FxArms ls r
+end
+
+/-- the compile-time loop facts survive a compile -/
+theorem GsOk.keep {Γ : List LCtx} {gs gs' : GS} (h : GsOk Γ gs) (hk : KeepFns gs gs') : GsOk Γ gs' :=
+  ⟨hk.loopstack.trans h.stack, fun γ hγ => by
+    obtain ⟨h1, h2, h3⟩ := h.recs γ hγ
+    exact ⟨Nat.lt_of_lt_of_le h1 hk.loopsLen, by rw [hk.loopsGet γ.id h1]; exact h2, by rw [hk.loopsGet γ.id h1]; exact h3⟩⟩
+
+/-- what the totality statements on Fx give -/
+abbrev TotX (gs gs' : GS) (code : List Instr) : Prop := KeepFns gs gs' ∧ LsRes gs gs' code
+
+theorem total_of_Ff {e : Expr} (he : Ff true "" e = true) (isFn : Nat → Bool) (c : Ctx) (gs : GS) (hfn : c.funcname = "") :
+    ∃ code t gs', (compile isFn c e).run gs = .ok ((code, t), gs') ∧ code ≠ [] ∧ TotX gs gs' code := by
+  obtain ⟨code, t, g1, h1, hne, hk⟩ := compile_total_Ff true "" e he isFn c gs (Or.inr (Or.inl hfn))
+  exact ⟨code, t, g1, h1, hne, hk.1, compile_ls_Ff true "" e he isFn c gs _ h1 (Or.inr (Or.inl hfn))⟩
+
+theorem TotX.seq {gs g1 g2 : GS} {a b code : List Instr} (h₁ : TotX gs g1 a) (h₂ : TotX g1 g2 b)
+    (h : ∀ x y, LsIn a x y → LsIn b x y → LsIn code x y) : TotX gs g2 code :=
+  ⟨h₁.1.trans h₂.1, Nat.le_trans h₁.2.1 h₂.2.1,
+    h _ _ (h₁.2.2.mono (Nat.le_refl _) h₂.2.1) (h₂.2.2.mono h₁.2.1 (Nat.le_refl _))⟩
+
+mutual
+theorem compile_total_Fx : ∀ (ls : List (Option String)) (e : Expr), Fx ls e = true → ∀ isFn c gs Γ, c.funcname = "" →
+    GsOk Γ gs → Γ.map (·.label) = ls →
+    ∃ code t gs', (compile isFn c e).run gs = .ok ((code, t), gs') ∧ code ≠ [] ∧ TotX gs gs' code
+  | ls, .break_ l, he, isFn, c, gs, Γ, hfn, hg, hls => by
+    rw [Fx] at he
+    obtain ⟨γ, hγ, _⟩ := findCtx_ok hls he
+    refine ⟨[.brk γ.id (c.scopes - ((gs.loops.getD γ.id {}).scopeDepth + 1))], c.tail, gs, ?_, by simp, KeepFns.refl _,
+      Nat.le_refl _, by lsin⟩
+    rw [compile]
+    simp only [bind, StateT.bind, StateT.run, get, getThe, MonadStateOf.get, StateT.get, pure, Except.pure, Except.bind,
+      StateT.pure, findLoop_ctx hg, hγ, Option.map_some]
+  | ls, .continue_ l, he, isFn, c, gs, Γ, hfn, hg, hls => by
+    rw [Fx] at he
+    obtain ⟨γ, hγ, _⟩ := findCtx_ok hls he
+    refine ⟨[.cont γ.id (c.scopes - ((gs.loops.getD γ.id {}).scopeDepth + 1))], c.tail, gs, ?_, by simp, KeepFns.refl _,
+      Nat.le_refl _, by lsin⟩
+    rw [compile]
+    simp only [bind, StateT.bind, StateT.run, get, getThe, MonadStateOf.get, StateT.get, pure, Except.pure, Except.bind,
+      StateT.pure, findLoop_ctx hg, hγ, Option.map_some]
+  | ls, .begin_ es, he, isFn, c, gs, Γ, hfn, hg, hls => by
+    rw [Fx] at he
+    cases es with
+    | nil => exact ⟨[.push .nil], c.tail, gs, by rw [compile]; rfl, by simp, KeepFns.refl _, Nat.le_refl _, by lsin⟩
+    | cons e0 es0 =>
+      rw [compile]
+      · exact compileBegin_total_Fx ls (e0 :: es0) (by simp) he isFn c gs Γ hfn hg hls
+      · intro hh; cases hh
+  | ls, .cond arms d, he, isFn, c, gs, Γ, hfn, hg, hls => by
+    rw [Fx] at he
+    simp only [Bool.and_eq_true] at he
+    obtain ⟨dc, t, g1, hd, hdne, hf1⟩ := compile_total_Fx ls d he.2 isFn c gs Γ hfn hg hls
+    obtain ⟨as, g2, has, hf2, hl2, hin2⟩ := compileArms_total_Fx ls arms he.1 isFn c g1 Γ hfn (hg.keep hf1.1) hls
+    refine ⟨asmCond as dc, c.tail, g2, ?_, asmCond_ne_nil as dc hdne, hf1.1.trans hf2, Nat.le_trans hf1.2.1 hl2, ?_⟩
+    · rw [compile]
+      simp only [g_bind_ok, g_pure_ok]
+      exact ⟨_, _, hd, _, _, has, rfl⟩
+    · exact lsIn_asmCond _ _ (fun p hp => ⟨(hin2 p hp).1.mono hf1.2.1 (Nat.le_refl _),
+        (hin2 p hp).2.mono hf1.2.1 (Nat.le_refl _)⟩) (hf1.2.2.mono (Nat.le_refl _) hl2)
+  | ls, .let_ seq bs body, he, isFn, c, gs, Γ, hfn, hg, hls => by
+    rw [Fx] at he
+    simp only [Bool.and_eq_true, Bool.not_eq_true', List.isEmpty_eq_false_iff] at he
+    obtain ⟨⟨⟨_, hbody⟩, hbs⟩, hbl⟩ := he
+    have hfn' : FnameOk "" { c with scopes := c.scopes + 1, tail := false } := Or.inr (Or.inl hfn)
+    obtain ⟨rhs, t1, g1, h1, hf1⟩ := compileBinds_total_Ff true "" bs hbs isFn { c with scopes := c.scopes + 1, tail := false } seq gs hfn'
+    have hl1 := compileBinds_ls_Ff true "" bs hbs isFn _ seq gs _ h1 hfn'
+    obtain ⟨b, t2, g2, h2, _, hf2⟩ := compileBegin_total_Fx ls body hbody hbl isFn { c with scopes := c.scopes + 1 } g1 Γ hfn
+      (hg.keep hf1.1) hls
+    refine ⟨[.addScope] ++ rhs ++ (if seq then [] else (bs.map (fun p => Instr.popStackPutEnv p.1)).reverse)
+      ++ b ++ [.removeScope], t2, g2, ?_, by simp, TotX.seq ⟨hf1.1, hl1⟩ hf2 (fun x y hx hy => ?_)⟩
+    · rw [compile]
+      simp only [g_bind_ok, g_pure_ok]
+      exact ⟨_, _, h1, _, _, h2, rfl⟩
+    · have h5 : LsIn (bs.map (fun p => Instr.popStackPutEnv p.1)).reverse x y := by
+        intro l hl
+        simp only [List.mem_reverse, List.mem_map] at hl
+        obtain ⟨_, _, hh⟩ := hl; cases hh
+      lsin
+  | ls, .newScope es, he, isFn, c, gs, Γ, hfn, hg, hls => by
+    rw [Fx] at he
+    simp only [Bool.and_eq_true, Bool.not_eq_true', List.isEmpty_eq_false_iff] at he
+    obtain ⟨code, t, g1, h1, _, hf1⟩ := compileNewScope_total_Fx ls es he.1 he.2 isFn { c with scopes := c.scopes + 1 }
+      c.tail gs Γ hfn hg hls
+    refine ⟨[.addScope] ++ code ++ [.removeScope], t, g1, ?_, by simp, hf1.1, hf1.2.1, ?_⟩
+    · cases es with
+      | nil => exact absurd rfl he.1
+      | cons e es =>
+        rw [compile]
+        · simp only [g_bind_ok, g_pure_ok]
+          exact ⟨_, _, h1, rfl⟩
+        · intro hh; cases hh
+    · have := hf1.2.2
+      lsin
+  | ls, .for_ label init test incr body, he, isFn, c, gs, Γ, hfn, hg, hls => by
+    rw [Fx] at he
+    simp only [Bool.and_eq_true] at he
+    obtain ⟨⟨⟨hi, ht⟩, hs⟩, hb⟩ := he
+    obtain ⟨b, tb, g2, h2, hf2⟩ := compileBeginAny_total_Fx (label :: ls) body hb isFn { c with tail := false, scopes := c.scopes + 1 }
+      (forGs gs c label) (ctx0 gs.loops.length label c.scopes :: Γ) hfn (hg.for_ c label _ rfl rfl rfl) (by simp [hls, ctx0])
+    obtain ⟨i, ti, g3, h3, _, hf3⟩ := total_of_Ff hi isFn { c with tail := false, scopes := c.scopes + 1 } g2 hfn
+    obtain ⟨t, tt, g4, h4, _, hf4⟩ := total_of_Ff ht isFn { c with tail := false, scopes := c.scopes + 1 } g3 hfn
+    obtain ⟨s, ts, g5, h5, _, hf5⟩ := total_of_Ff hs isFn { c with tail := false, scopes := c.scopes + 1 } g4 hfn
+    refine ⟨forCode gs.loops.length i t s b, c.tail,
+      forDone g5 gs.loops.length
+        (asmFor gs.loops.length (i ++ [.popUntilMark gs.loops.length]) t
+          (s ++ [.popUntilMark gs.loops.length]) (b ++ [.popUntilMark gs.loops.length])).2.1
+        (asmFor gs.loops.length (i ++ [.popUntilMark gs.loops.length]) t
+          (s ++ [.popUntilMark gs.loops.length]) (b ++ [.popUntilMark gs.loops.length])).2.2,
+      ?_, by simp [forCode, asmFor], ?_, ?_, ?_⟩
+    · rw [compile_for_eq, h2]
+      simp only
+      rw [h3]
+      simp only
+      rw [h4]
+      simp only
+      rw [h5]
+    · exact KeepFns.for_ (((hf2.1.trans hf3.1).trans hf4.1).trans hf5.1)
+    · have b1 := hf2.2.1; have i1 := hf3.2.1; have t1 := hf4.2.1; have s1 := hf5.2.1
+      rw [forGs_len] at b1
+      simp only [forDone_len]; omega
+    · have b1 := hf2.2.1; have i1 := hf3.2.1; have t1 := hf4.2.1; have s1 := hf5.2.1
+      have b2 := hf2.2.2
+      rw [forGs_len] at b1 b2
+      simp only [forDone_len]
+      exact lsIn_forCode (hf3.2.2.mono (by omega) (by omega)) (hf4.2.2.mono (by omega) (by omega))
+        (hf5.2.2.mono (by omega) (by omega)) (b2.mono (by omega) (by omega)) ⟨Nat.le_refl _, by omega⟩
+  | ls, .int v, he, isFn, c, gs, Γ, hfn, hg, hls | ls, .bool v, he, isFn, c, gs, Γ, hfn, hg, hls
+  | ls, .str v, he, isFn, c, gs, Γ, hfn, hg, hls | ls, .nilLit, he, isFn, c, gs, Γ, hfn, hg, hls
+  | ls, .sym x, he, isFn, c, gs, Γ, hfn, hg, hls | ls, .arr es, he, isFn, c, gs, Γ, hfn, hg, hls
+  | ls, .call f args, he, isFn, c, gs, Γ, hfn, hg, hls | ls, .def_ x e, he, isFn, c, gs, Γ, hfn, hg, hls
+  | ls, .set_ x e, he, isFn, c, gs, Γ, hfn, hg, hls | ls, .and_ es, he, isFn, c, gs, Γ, hfn, hg, hls
+  | ls, .or_ es, he, isFn, c, gs, Γ, hfn, hg, hls | ls, .fn _ _ _, he, isFn, c, gs, Γ, hfn, hg, hls
+  | ls, .defn _ _ _ _, he, isFn, c, gs, Γ, hfn, hg, hls => by
+    rw [Fx] at he; exact total_of_Ff he isFn c gs hfn
+  | ls, .assign _ _, he, _, _, _, _, _, _, _ | ls, .bad _, he, _, _, _, _, _, _, _ => by
+    simp [Fx] at he
+theorem compileBegin_total_Fx : ∀ (ls : List (Option String)) (es : List Expr), es ≠ [] → FxList ls es = true →
+    ∀ isFn c gs Γ, c.funcname = "" → GsOk Γ gs → Γ.map (·.label) = ls →
+    ∃ code t gs', (compileBegin isFn c es).run gs = .ok ((code, t), gs') ∧ code ≠ [] ∧ TotX gs gs' code
+  | _, [], hne, _, _, _, _, _, _, _, _ => absurd rfl hne
+  | ls, [e], _, he, isFn, c, gs, Γ, hfn, hg, hls => by
+    rw [FxList] at he
+    simp only [Bool.and_eq_true] at he
+    rw [compileBegin]
+    exact compile_total_Fx ls e he.1 isFn c gs Γ hfn hg hls
+  | ls, e :: e' :: es, _, he, isFn, c, gs, Γ, hfn, hg, hls => by
+    rw [FxList] at he
+    simp only [Bool.and_eq_true] at he
+    obtain ⟨a, ta, g1, ha, hane, hf1⟩ := compile_total_Fx ls e he.1 isFn { c with tail := false } gs Γ hfn hg hls
+    obtain ⟨b, tb, g2, hb, _, hf2⟩ := compileBegin_total_Fx ls (e' :: es) (by simp) he.2 isFn c g1 Γ hfn (hg.keep hf1.1) hls
+    refine ⟨a ++ (if a.isEmpty then [] else [.pop]) ++ b, tb, g2, ?_, by simp [hane],
+      TotX.seq hf1 hf2 (fun x y hx hy => by lsin)⟩
+    rw [compileBegin]
+    · simp only [g_bind_ok, g_pure_ok]
+      exact ⟨_, _, ha, _, _, hb, rfl⟩
+    · intro hh; cases hh
+theorem compileBeginAny_total_Fx : ∀ (ls : List (Option String)) (es : List Expr), FxList ls es = true →
+    ∀ isFn c gs Γ, c.funcname = "" → GsOk Γ gs → Γ.map (·.label) = ls →
+    ∃ code t gs', (compileBegin isFn c es).run gs = .ok ((code, t), gs') ∧ TotX gs gs' code
+  | _, [], _, isFn, c, gs, _, _, _, _ => ⟨[], false, gs, by rw [compileBegin]; rfl, KeepFns.refl _, Nat.le_refl _, by lsin⟩
+  | ls, e :: es, he, isFn, c, gs, Γ, hfn, hg, hls => by
+    obtain ⟨code, t, g1, h1, _, hf1⟩ := compileBegin_total_Fx ls (e :: es) (by simp) he isFn c gs Γ hfn hg hls
+    exact ⟨code, t, g1, h1, hf1⟩
+theorem compileNewScope_total_Fx : ∀ (ls : List (Option String)) (es : List Expr), es ≠ [] → FxList ls es = true →
+    ∀ isFn c oldtail gs Γ, c.funcname = "" → GsOk Γ gs → Γ.map (·.label) = ls →
+    ∃ code t gs', (compileNewScope isFn c oldtail es).run gs = .ok ((code, t), gs') ∧ code ≠ [] ∧ TotX gs gs' code
+  | _, [], hne, _, _, _, _, _, _, _, _, _ => absurd rfl hne
+  | ls, [e], _, he, isFn, c, oldtail, gs, Γ, hfn, hg, hls => by
+    rw [FxList] at he
+    simp only [Bool.and_eq_true] at he
+    rw [compileNewScope]
+    exact compile_total_Fx ls e he.1 isFn _ gs Γ hfn hg hls
+  | ls, e :: e' :: es, _, he, isFn, c, oldtail, gs, Γ, hfn, hg, hls => by
+    rw [FxList] at he
+    simp only [Bool.and_eq_true] at he
+    obtain ⟨a, ta, g1, ha, hane, hf1⟩ := compile_total_Fx ls e he.1 isFn { c with tail := false } gs Γ hfn hg hls
+    obtain ⟨b, tb, g2, hb, _, hf2⟩ := compileNewScope_total_Fx ls (e' :: es) (by simp) he.2 isFn c oldtail g1 Γ hfn
+      (hg.keep hf1.1) hls
+    refine ⟨a ++ [.pop] ++ b, tb, g2, ?_, by simp, TotX.seq hf1 hf2 (fun x y hx hy => by lsin)⟩
+    rw [compileNewScope]
+    · simp only [g_bind_ok, g_pure_ok]
+      exact ⟨_, _, ha, _, _, hb, rfl⟩
+    · intro hh; cases hh
+theorem compileArms_total_Fx : ∀ (ls : List (Option String)) (arms : List (Expr × Expr)), FxArms ls arms = true →
+    ∀ isFn c gs Γ, c.funcname = "" → GsOk Γ gs → Γ.map (·.label) = ls →
+    ∃ as gs', (compileArms isFn c arms).run gs = .ok (as, gs') ∧ KeepFns gs gs' ∧ gs.loops.length ≤ gs'.loops.length
+      ∧ ∀ p ∈ as, LsIn p.1 gs.loops.length gs'.loops.length ∧ LsIn p.2 gs.loops.length gs'.loops.length
+  | _, [], _, isFn, c, gs, _, _, _, _ =>
+    ⟨[], gs, by rw [compileArms]; rfl, KeepFns.refl _, Nat.le_refl _, fun _ h => by cases h⟩
+  | ls, (p, b) :: arms, he, isFn, c, gs, Γ, hfn, hg, hls => by
+    rw [FxArms] at he
+    simp only [Bool.and_eq_true] at he
+    obtain ⟨r, g1, hr, hf1, hl1, hin1⟩ := compileArms_total_Fx ls arms he.2 isFn c gs Γ hfn hg hls
+    obtain ⟨pc, _, g2, hp, _, hf2⟩ := total_of_Ff he.1.1 isFn { c with tail := false } g1 hfn
+    obtain ⟨bc, _, g3, hb, _, hf3⟩ := compile_total_Fx ls b he.1.2 isFn c g2 Γ hfn (hg.keep (hf1.trans hf2.1)) hls
+    refine ⟨(pc, bc) :: r, g3, ?_, (hf1.trans hf2.1).trans hf3.1, Nat.le_trans hl1 (Nat.le_trans hf2.2.1 hf3.2.1), fun x hx => ?_⟩
+    · rw [compileArms]
+      simp only [g_bind_ok, g_pure_ok]
+      exact ⟨_, _, hr, _, _, hp, _, _, hb, rfl⟩
+    · rcases List.mem_cons.mp hx with rfl | hx
+      · exact ⟨hf2.2.2.mono hl1 hf3.2.1, hf3.2.2.mono (Nat.le_trans hl1 hf2.2.1) (Nat.le_refl _)⟩
+      · exact ⟨(hin1 x hx).1.mono (Nat.le_refl _) (Nat.le_trans hf2.2.1 hf3.2.1),
+          (hin1 x hx).2.mono (Nat.le_refl _) (Nat.le_trans hf2.2.1 hf3.2.1)⟩
+end
+
 end ZygoVerif.Sim
